@@ -12,7 +12,8 @@ tvars == <<vars, l>>
 TInit ==
   /\ l = 1
   /\ changed = [i \in Files |-> FALSE]
-  /\ disk = [i \in Files |-> [f |-> "orig", tmp |-> "absent", bk |-> "absent"]]
+  /\ disk0 = [i \in Files |-> [f |-> "orig", tmp |-> "absent", bk |-> "absent"]]
+  /\ disk = disk0
   /\ cur = NFiles + 1 /\ pc = "decide" /\ status = "done" /\ ops = <<>> /\ stop = ""
 
 IsEv(e) == l <= Len(Rec) /\ Rec[l].ev = e /\ l' = l + 1
@@ -20,7 +21,8 @@ IsEv(e) == l <= Len(Rec) /\ Rec[l].ev = e /\ l' = l + 1
 TReset ==
   /\ IsEv("reset") /\ status # "running"
   /\ changed' = [i \in Files |-> Rec[l].changed[i]]
-  /\ disk' = [i \in Files |-> [f |-> "orig", tmp |-> "absent", bk |-> "absent"]]
+  /\ disk0' = [i \in Files |-> Rec[l].disk0[i]]
+  /\ disk' = disk0'
   /\ cur' = 1 /\ pc' = "decide" /\ status' = "running" /\ ops' = <<>> /\ stop' = ""
 
 (* `Decide` is not a file-system call: it is unlogged, so it is composed    *)
@@ -49,7 +51,7 @@ TOp ==
           [] o = "write_f" -> disk' = [disk EXCEPT ![i].f = "new"] /\ pc' = "decide"
                /\ cur' = i + 1 /\ status' = status
           [] OTHER -> FALSE
-  /\ UNCHANGED <<changed, stop>>
+  /\ UNCHANGED <<changed, disk0, stop>>
 
 TEnd ==
   /\ IsEv("end") /\ status = "running"
@@ -57,7 +59,7 @@ TEnd ==
      /\ s \in {"done", "crashed", "failed"}
      /\ s = "done" => pc = "decide" /\ SkipTo(cur, NFiles + 1)
      /\ status' = s
-  /\ UNCHANGED <<changed, disk, cur, pc, ops, stop>>
+  /\ UNCHANGED <<changed, disk0, disk, cur, pc, ops, stop>>
 
 TNext == TReset \/ TOp \/ TEnd
 TSpec == TInit /\ [][TNext]_tvars
